@@ -1,4 +1,4 @@
-import HailVerif.Model.ExprIR
+import HailVerif.Proofs.ExprAgree
 /-!
 # Lemmas about the expression IR model (C35): coincidence, substitution, inlining of `__cse` bindings, scope checker
 -/
@@ -38,163 +38,81 @@ theorem lookup_append_congr (bs ρ ρ' : Env) (z : Name) (h : z ∉ keys bs → 
       simp only [keys, List.map_cons, List.mem_cons, not_or]
       exact ⟨fun e => hne e.symm, hz⟩
 
-theorem mem_remove {x y : Name} {l : List Name} : y ∈ remove x l ↔ y ∈ l ∧ y ≠ x := by
-  simp [remove]
 
-/-! ## coincidence: the value of an aggregation-free expression depends only on its free variables -/
+/-! ## coincidence: the value of an expression depends only on its free variables (see `eval_agree` for the aggregation scope) -/
 
-theorem eval_congr (A : List Env) (t : IR) :
-    ∀ (ρ ρ' : Env), aggFree t = true → (∀ y ∈ fv t, lookup ρ y = lookup ρ' y) → eval ρ A t = eval ρ' A t := by
+theorem eval_congr (A : List Env) (t : IR) (ρ ρ' : Env) (h : ∀ y ∈ fv t, lookup ρ y = lookup ρ' y) :
+    eval ρ A t = eval ρ' A t :=
+  eval_agree_env t ρ ρ' A h
+
+/-! ## free variables are names -/
+
+theorem fv_fva_subset_names (t : IR) : (∀ y ∈ fv t, y ∈ names t) ∧ (∀ y ∈ fva t, y ∈ names t) := by
   induction t
-  case ref x => intro ρ ρ' _ h; simpa [eval] using h x (by simp [fv])
-  case i32 | i64 | f32 | f64 | str | bool | na | anil | snil | tnil => intros; simp [eval]
-  case cast | ascribe | isNA | un | arrayLen | toArray | toStream | getField | getTupleElement | toSet | toDict =>
-    rename_i ih
-    intro ρ ρ' ha h
-    simp only [eval]
-    rw [ih ρ ρ' (by simpa [aggFree] using ha) (by simpa [fv] using h)]
-  case bin | cmp | acons | arrayRef | scons | insertField | tcons | dictGet =>
-    rename_i iha ihb
-    intro ρ ρ' ha h
-    simp only [aggFree, Bool.and_eq_true] at ha
-    simp only [fv, List.mem_append] at h
-    simp only [eval]
-    have e1 := iha ρ ρ' ha.1 (fun y hy => h y (Or.inl hy))
-    have e2 := ihb ρ ρ' ha.2 (fun y hy => h y (Or.inr hy))
-    simp only [e1, e2]
+  case ref | i32 | i64 | f32 | f64 | str | bool | na | anil | snil | tnil => simp [fv, fva, names]
+  case cast ih | ascribe ih | isNA ih | un ih | arrayLen ih | toArray ih | toStream ih | getField ih | getTupleElement ih
+    | toSet ih | toDict ih => simpa [fv, fva, names] using ih
+  case bin iha ihb | cmp iha ihb | acons iha ihb | arrayRef iha ihb | scons iha ihb | insertField iha ihb | tcons iha ihb
+    | dictGet iha ihb =>
+    simp only [fv, fva, names, List.mem_append]
+    exact ⟨fun y hy => hy.imp (iha.1 y) (ihb.1 y), fun y hy => hy.imp (iha.2 y) (ihb.2 y)⟩
   case ite iha ihb ihc =>
-    intro ρ ρ' ha h
-    simp only [aggFree, Bool.and_eq_true] at ha
-    simp only [fv, List.mem_append] at h
-    simp only [eval]
-    rw [iha ρ ρ' ha.1.1 (fun y hy => h y (Or.inl (Or.inl hy))), ihb ρ ρ' ha.1.2 (fun y hy => h y (Or.inl (Or.inr hy))),
-      ihc ρ ρ' ha.2 (fun y hy => h y (Or.inr hy))]
-  case let_ x v b ihv ihb =>
-    intro ρ ρ' ha h
-    simp only [aggFree, Bool.and_eq_true] at ha
-    simp only [fv, List.mem_append, mem_remove] at h
-    simp only [eval]
-    rw [ihv ρ ρ' ha.1 (fun y hy => h y (Or.inl hy))]
-    apply ihb _ _ ha.2
-    intro y hy
-    simp only [lookup_cons]
-    split
-    · rfl
-    · rename_i hne; exact h y (Or.inr ⟨hy, fun e => hne e.symm⟩)
-  case streamMap x a b iha ihb =>
-    intro ρ ρ' ha h
-    simp only [aggFree, Bool.and_eq_true] at ha
-    simp only [fv, List.mem_append, mem_remove] at h
-    simp only [eval]
-    rw [iha ρ ρ' ha.1 (fun y hy => h y (Or.inl hy))]
-    have hb : ∀ w, eval ((x, w) :: ρ) A b = eval ((x, w) :: ρ') A b := by
-      intro w
-      apply ihb _ _ ha.2
-      intro y hy
-      simp only [lookup_cons]
-      split
-      · rfl
-      · rename_i hne; exact h y (Or.inr ⟨hy, fun e => hne e.symm⟩)
-    simp only [hb]
-  case streamFilter x a b iha ihb =>
-    intro ρ ρ' ha h
-    simp only [aggFree, Bool.and_eq_true] at ha
-    simp only [fv, List.mem_append, mem_remove] at h
-    simp only [eval]
-    rw [iha ρ ρ' ha.1 (fun y hy => h y (Or.inl hy))]
-    have hb : ∀ w, eval ((x, w) :: ρ) A b = eval ((x, w) :: ρ') A b := by
-      intro w
-      apply ihb _ _ ha.2
-      intro y hy
-      simp only [lookup_cons]
-      split
-      · rfl
-      · rename_i hne; exact h y (Or.inr ⟨hy, fun e => hne e.symm⟩)
-    simp only [hb]
-  case streamFold acc v a z b iha ihz ihb =>
-    intro ρ ρ' ha h
-    simp only [aggFree, Bool.and_eq_true] at ha
-    simp only [fv, List.mem_append, mem_remove] at h
-    simp only [eval]
-    rw [iha ρ ρ' ha.1.1 (fun y hy => h y (Or.inl (Or.inl hy))), ihz ρ ρ' ha.1.2 (fun y hy => h y (Or.inl (Or.inr hy)))]
-    have hb : ∀ s w, eval ((v, w) :: (acc, s) :: ρ) A b = eval ((v, w) :: (acc, s) :: ρ') A b := by
-      intro s w
-      apply ihb _ _ ha.2
-      intro y hy
-      simp only [lookup_cons]
-      split
-      · rfl
-      · split
-        · rfl
-        · rename_i hne1 hne2
-          exact h y (Or.inr ⟨⟨hy, fun e => hne1 e.symm⟩, fun e => hne2 e.symm⟩)
-    simp only [hb]
-  case streamScan acc v a z b iha ihz ihb =>
-    intro ρ ρ' ha h
-    simp only [aggFree, Bool.and_eq_true] at ha
-    simp only [fv, List.mem_append, mem_remove] at h
-    simp only [eval]
-    rw [iha ρ ρ' ha.1.1 (fun y hy => h y (Or.inl (Or.inl hy))), ihz ρ ρ' ha.1.2 (fun y hy => h y (Or.inl (Or.inr hy)))]
-    have hb : ∀ s w, eval ((v, w) :: (acc, s) :: ρ) A b = eval ((v, w) :: (acc, s) :: ρ') A b := by
-      intro s w
-      apply ihb _ _ ha.2
-      intro y hy
-      simp only [lookup_cons]
-      split
-      · rfl
-      · split
-        · rfl
-        · rename_i hne1 hne2
-          exact h y (Or.inr ⟨⟨hy, fun e => hne1 e.symm⟩, fun e => hne2 e.symm⟩)
-    simp only [hb]
-  case streamAgg | aggLet | aggFilter | agg => intro _ _ ha; simp [aggFree] at ha
+    simp only [fv, fva, names, List.mem_append]
+    exact ⟨fun y hy => hy.imp (Or.imp (iha.1 y) (ihb.1 y)) (ihc.1 y), fun y hy => hy.imp (Or.imp (iha.2 y) (ihb.2 y)) (ihc.2 y)⟩
+  case let_ iha ihb | streamMap iha ihb | streamFilter iha ihb =>
+    simp only [fv, fva, names, List.mem_append, List.mem_cons, mem_remove]
+    exact ⟨fun y hy => Or.inr (hy.imp (iha.1 y) (fun h => ihb.1 y h.1)), fun y hy => Or.inr (hy.imp (iha.2 y) (ihb.2 y))⟩
+  case streamFold iha ihz ihb | streamScan iha ihz ihb =>
+    simp only [fv, fva, names, List.mem_append, List.mem_cons, mem_remove]
+    exact ⟨fun y hy => Or.inr (Or.inr (hy.imp (Or.imp (iha.1 y) (ihz.1 y)) (fun h => ihb.1 y h.1.1))),
+      fun y hy => Or.inr (Or.inr (hy.imp (Or.imp (iha.2 y) (ihz.2 y)) (ihb.2 y)))⟩
+  case streamAgg iha ihq =>
+    simp only [fv, fva, names, List.mem_append, List.mem_cons, mem_remove]
+    refine ⟨fun y hy => Or.inr ?_, fun y hy => Or.inr (Or.inl (iha.2 y hy))⟩
+    rcases hy with (hy | hy) | hy
+    · exact Or.inl (iha.1 y hy)
+    · exact Or.inr (ihq.1 y hy)
+    · exact Or.inr (ihq.2 y hy.1)
+  case aggLet ihv ihb =>
+    simp only [fv, fva, names, List.mem_append, List.mem_cons, mem_remove]
+    exact ⟨fun y hy => Or.inr (Or.inr (ihb.1 y hy)), fun y hy => Or.inr (hy.imp (ihv.1 y) (fun h => ihb.2 y h.1))⟩
+  case aggFilter ihc ihb =>
+    simp only [fv, fva, names, List.mem_append]
+    exact ⟨fun y hy => Or.inr (ihb.1 y hy), fun y hy => hy.imp (ihc.1 y) (ihb.2 y)⟩
+  case agg iha =>
+    simp only [fv, fva, names]
+    exact ⟨fun y hy => by simp at hy, iha.1⟩
+
+theorem fv_subset_names (t : IR) : ∀ y ∈ fv t, y ∈ names t := (fv_fva_subset_names t).1
+
 
 /-! ## substitution -/
+
+theorem eval_env_ext (t : IR) (ρ ρ' : Env) (A : List Env) (h : ∀ z, lookup ρ z = lookup ρ' z) :
+    eval ρ A t = eval ρ' A t :=
+  eval_agree_env t ρ ρ' A (fun z _ => h z)
 
 theorem subst_of_not_free (x : Name) (v : IR) (t : IR) : x ∉ fv t → subst x v t = t := by
   induction t
   case ref y => intro h; simp [fv] at h; simp [subst, Ne.symm h]
-  case i32 | i64 | f32 | f64 | str | bool | na | anil | snil | tnil => intros; simp [subst]
-  case streamAgg | aggLet | aggFilter | agg => intros; simp [subst]
+  case i32 | i64 | f32 | f64 | str | bool | na | anil | snil | tnil | agg => intros; simp [subst]
+  case streamAgg y a q iha _ => intro h; simp only [fv, List.mem_append, not_or] at h; simp [subst, iha h.1.1]
+  case aggLet y e b _ ihb => intro h; simp only [fv] at h; simp [subst, ihb h]
+  case aggFilter c b _ ihb => intro h; simp only [fv] at h; simp [subst, ihb h]
   case cast | ascribe | isNA | un | arrayLen | toArray | toStream | getField | getTupleElement | toSet | toDict =>
     rename_i ih; intro h; simp only [fv] at h; simp [subst, ih h]
   case bin | cmp | acons | arrayRef | scons | insertField | tcons | dictGet =>
     rename_i iha ihb; intro h; simp only [fv, List.mem_append, not_or] at h; simp [subst, iha h.1, ihb h.2]
   case ite iha ihb ihc =>
     intro h; simp only [fv, List.mem_append, not_or] at h; simp [subst, iha h.1.1, ihb h.1.2, ihc h.2]
-  case let_ y e b ihe ihb =>
+  case let_ y e b ihe ihb | streamMap y e b ihe ihb | streamFilter y e b ihe ihb =>
     intro h; simp only [fv, List.mem_append, mem_remove, not_or, not_and, Decidable.not_not] at h
     simp only [subst, ihe h.1]
     by_cases hyx : y = x
     · simp [hyx]
     · have : x ∉ fv b := fun hm => hyx (h.2 hm).symm
       simp [hyx, ihb this]
-  case streamMap y e b ihe ihb =>
-    intro h; simp only [fv, List.mem_append, mem_remove, not_or, not_and, Decidable.not_not] at h
-    simp only [subst, ihe h.1]
-    by_cases hyx : y = x
-    · simp [hyx]
-    · have : x ∉ fv b := fun hm => hyx (h.2 hm).symm
-      simp [hyx, ihb this]
-  case streamFilter y e b ihe ihb =>
-    intro h; simp only [fv, List.mem_append, mem_remove, not_or, not_and, Decidable.not_not] at h
-    simp only [subst, ihe h.1]
-    by_cases hyx : y = x
-    · simp [hyx]
-    · have : x ∉ fv b := fun hm => hyx (h.2 hm).symm
-      simp [hyx, ihb this]
-  case streamFold acc w a z b iha ihz ihb =>
-    intro h; simp only [fv, List.mem_append, mem_remove, not_or, not_and, Decidable.not_not] at h
-    simp only [subst, iha h.1.1, ihz h.1.2]
-    by_cases hyx : acc = x ∨ w = x
-    · simp [hyx]
-    · have : x ∉ fv b := by
-        intro hm
-        rcases Decidable.not_or_of_imp (fun e : x = w => e) with h1 | h1
-        · have := h.2 ⟨hm, h1⟩; exact hyx (Or.inl this.symm)
-        · exact hyx (Or.inr h1.symm)
-      simp [hyx, ihb this]
-  case streamScan acc w a z b iha ihz ihb =>
+  case streamFold acc w a z b iha ihz ihb | streamScan acc w a z b iha ihz ihb =>
     intro h; simp only [fv, List.mem_append, mem_remove, not_or, not_and, Decidable.not_not] at h
     simp only [subst, iha h.1.1, ihz h.1.2]
     by_cases hyx : acc = x ∨ w = x
@@ -206,17 +124,32 @@ theorem subst_of_not_free (x : Name) (v : IR) (t : IR) : x ∉ fv t → subst x 
         · exact hyx (Or.inr h1.symm)
       simp [hyx, ihb this]
 
+theorem subst_of_not_names (x : Name) (v : IR) (t : IR) (h : x ∉ names t) : subst x v t = t :=
+  subst_of_not_free x v t (fun hm => h (fv_subset_names t x hm))
+
+/-- a variable that is not free does not matter -/
+theorem eval_of_not_free (x : Name) (t : IR) (h : x ∉ fv t) (ρ ρ' : Env) (A : List Env)
+    (hl : ∀ z, z ≠ x → lookup ρ z = lookup ρ' z) : eval ρ A t = eval ρ' A t :=
+  eval_agree_env t ρ ρ' A (fun y hy => hl y (fun e => h (e ▸ hy)))
+
+/-- binders that rebind no free variable of `v` do not change its value -/
+theorem eval_capt (v : IR) (bs ρ : Env) (A : List Env) (h : ∀ y ∈ keys bs, y ∉ fv v) :
+    eval (bs ++ ρ) A v = eval ρ A v := by
+  apply eval_agree_env
+  intro z hz
+  apply lookup_append_of_not_mem
+  intro hk; exact h z hk hz
+
 /-- core of the substitution lemma under a prefix `bs` of binders (the lambda parameters of a stream node, or the variable of
-a `Let`): if none of them is free in `v`, the body can be evaluated with `x` bound to the value `v` had outside -/
+a `Let`): if none of them is captured by `v`, the body can be evaluated with `x` bound to the value `v` had outside -/
 theorem eval_under_binders (A : List Env) (x : Name) (v b : IR) (bs ρ : Env)
-    (hav : aggFree v = true) (hab : aggFree b = true)
     (hc : x ∈ keys bs ∨ x ∉ fv b ∨
       ((∀ y ∈ keys bs, y ∉ fv v) ∧ ∀ ρ1, eval ((x, eval ρ1 A v) :: ρ1) A b = eval ρ1 A (subst x v b))) :
     eval (bs ++ (x, eval ρ A v) :: ρ) A b = eval (bs ++ ρ) A (if x ∈ keys bs then b else subst x v b) := by
   by_cases hx : x ∈ keys bs
   · rw [if_pos hx]
-    apply eval_congr A b _ _ hab
-    intro z _
+    apply eval_env_ext
+    intro z
     apply lookup_append_congr
     intro hz
     have : x ≠ z := fun e => hz (e ▸ hx)
@@ -225,22 +158,16 @@ theorem eval_under_binders (A : List Env) (x : Name) (v b : IR) (bs ρ : Env)
     rcases hc with hc | hc | hc
     · exact absurd hc hx
     · rw [subst_of_not_free x v b hc]
-      apply eval_congr A b _ _ hab
+      apply eval_of_not_free x b hc
       intro z hz
       apply lookup_append_congr
       intro _
-      have : x ≠ z := fun e => hc (e ▸ hz)
+      have : x ≠ z := fun e => hz e.symm
       simp [lookup_cons, this]
     · obtain ⟨hc, ih⟩ := hc
-      rw [← ih (bs ++ ρ)]
-      have hv : eval (bs ++ ρ) A v = eval ρ A v := by
-        apply eval_congr A v _ _ hav
-        intro z hz
-        apply lookup_append_of_not_mem
-        intro hk; exact hc z hk hz
-      rw [hv]
-      apply eval_congr A b _ _ hab
-      intro z _
+      rw [← ih (bs ++ ρ), eval_capt v bs ρ A hc]
+      apply eval_env_ext
+      intro z
       by_cases hzk : z ∈ keys bs
       · have hzx : x ≠ z := fun e => hx (e ▸ hzk)
         rw [lookup_cons, if_neg hzx]
@@ -251,47 +178,92 @@ theorem eval_under_binders (A : List Env) (x : Name) (v b : IR) (bs ρ : Env)
         · rfl
         · exact (lookup_append_of_not_mem _ _ _ hzk).symm
 
-/-- **Substitution lemma**: when `subst` is capture-avoiding (`substOk`), binding `x` to the value of `v` and evaluating `t`
-is evaluating `t[v/x]`. -/
-theorem eval_subst (A : List Env) (x : Name) (v : IR) (hav : aggFree v = true) (t : IR) :
-    ∀ ρ, aggFree t = true → substOk x (fv v) t = true →
+/-- **Substitution lemma** (value scope, aggregation nodes included): when `subst` is capture-avoiding and respects the
+aggregation scope (`substOk` with the captured variables of `v` and its dependence on the aggregation scope), binding `x` to
+the value of `v` and evaluating `t` is evaluating `t[v/x]`. -/
+theorem eval_subst (x : Name) (v : IR) (t : IR) :
+    ∀ ρ A, substOk x (fv v) (fva v) (usesAgg v) t = true →
       eval ((x, eval ρ A v) :: ρ) A t = eval ρ A (subst x v t) := by
   induction t
   case ref y =>
-    intro ρ _ _
+    intro ρ A _
     by_cases h : y = x
     · simp [subst, h, eval, lookup_cons]
     · have h' : ¬ x = y := fun e => h e.symm
       simp [subst, h, eval, lookup_cons, h']
   case i32 | i64 | f32 | f64 | str | bool | na | anil | snil | tnil => intros; simp [subst, eval]
-  case streamAgg | aggLet | aggFilter | agg => intro _ ha; simp [aggFree] at ha
+  case agg op a _ => intro ρ A _; cases op <;> simp [subst, eval]
+  case streamAgg y a q iha _ =>
+    intro ρ A hs
+    simp only [substOk, Bool.and_eq_true, decide_eq_true_eq, List.mem_append, not_or] at hs
+    simp only [subst, eval]
+    rw [iha ρ A hs.1]
+    have hq : ∀ vs : List Val, eval ((x, eval ρ A v) :: ρ) (vs.map fun w => (y, w) :: (x, eval ρ A v) :: ρ) q
+        = eval ρ (vs.map fun w => (y, w) :: ρ) q := by
+      intro vs
+      have hl : ∀ L, x ∉ L → Agree L ((x, eval ρ A v) :: ρ) ρ := by
+        intro L hL z hz
+        have : x ≠ z := fun e => hL (e ▸ hz)
+        simp [lookup_cons, this]
+      apply eval_agree q _ _ _ _ (hl _ hs.2.1)
+      exact Rel2.of_map _ _ (fun w => (hl _ hs.2.2).cons_remove w) vs
+    simp only [hq]
+  case aggLet y e b _ ihb =>
+    intro ρ A hs
+    simp only [substOk, Bool.or_eq_true, Bool.and_eq_true, decide_eq_true_eq, Bool.not_eq_true'] at hs
+    simp only [subst, eval]
+    rcases hs with hs | hs
+    · rw [subst_of_not_free x v b hs]
+      apply eval_agree_env
+      intro z hz
+      have : x ≠ z := fun e => hs (e ▸ hz)
+      simp [lookup_cons, this]
+    · have hv : eval ρ A v = eval ρ (A.map fun σ => (y, eval σ [] e) :: σ) v := by
+        rcases hs.1 with hd | hy
+        · exact eval_A_irrel v ρ A _ hd
+        · apply eval_agree v ρ ρ _ _ (fun _ _ => rfl)
+          apply Rel2.map_right
+          intro σ z hz
+          have : y ≠ z := fun e => hy (e ▸ hz)
+          simp [lookup_cons, this]
+      rw [hv]
+      exact ihb ρ _ hs.2
+  case aggFilter c b _ ihb =>
+    intro ρ A hs
+    simp only [substOk, Bool.or_eq_true, Bool.and_eq_true, decide_eq_true_eq, Bool.not_eq_true'] at hs
+    simp only [subst, eval]
+    rcases hs with hs | hs
+    · rw [subst_of_not_free x v b hs]
+      apply eval_agree_env
+      intro z hz
+      have : x ≠ z := fun e => hs (e ▸ hz)
+      simp [lookup_cons, this]
+    · rw [eval_A_irrel v ρ A _ hs.1]
+      exact ihb ρ _ hs.2
   case cast | ascribe | isNA | un | arrayLen | toArray | toStream | getField | getTupleElement | toSet | toDict =>
     rename_i ih
-    intro ρ ha hs
+    intro ρ A hs
     simp only [subst, eval]
-    rw [ih ρ (by simpa [aggFree] using ha) (by simpa [substOk] using hs)]
+    rw [ih ρ A (by simpa [substOk] using hs)]
   case bin | cmp | acons | arrayRef | scons | insertField | tcons | dictGet =>
     rename_i iha ihb
-    intro ρ ha hs
-    simp only [aggFree, Bool.and_eq_true] at ha
+    intro ρ A hs
     simp only [substOk, Bool.and_eq_true] at hs
     simp only [subst, eval]
-    have e1 := iha ρ ha.1 hs.1
-    have e2 := ihb ρ ha.2 hs.2
+    have e1 := iha ρ A hs.1
+    have e2 := ihb ρ A hs.2
     simp only [e1, e2]
   case ite iha ihb ihc =>
-    intro ρ ha hs
-    simp only [aggFree, Bool.and_eq_true] at ha
+    intro ρ A hs
     simp only [substOk, Bool.and_eq_true] at hs
     simp only [subst, eval]
-    rw [iha ρ ha.1.1 hs.1.1, ihb ρ ha.1.2 hs.1.2, ihc ρ ha.2 hs.2]
+    rw [iha ρ A hs.1.1, ihb ρ A hs.1.2, ihc ρ A hs.2]
   case let_ y e b ihe ihb =>
-    intro ρ ha hs
-    simp only [aggFree, Bool.and_eq_true] at ha
+    intro ρ A hs
     simp only [substOk, Bool.and_eq_true, Bool.or_eq_true, decide_eq_true_eq] at hs
     simp only [subst, eval]
-    rw [ihe ρ ha.1 hs.1.1]
-    have key := eval_under_binders A x v b [(y, eval ρ A (subst x v e))] ρ hav ha.2
+    rw [ihe ρ A hs.1]
+    have key := eval_under_binders A x v b [(y, eval ρ A (subst x v e))] ρ
     simp only [keys, List.map_cons, List.map_nil, List.mem_singleton, List.cons_append, List.nil_append] at key
     by_cases hyx : y = x
     · subst hyx
@@ -302,17 +274,16 @@ theorem eval_subst (A : List Env) (x : Name) (v : IR) (hav : aggFree v = true) (
       · exact absurd h hyx
       · have := key (Or.inr (Or.inl h))
         simpa [hxy, hyx] using this
-      · have := key (Or.inr (Or.inr ⟨by intro z hz; subst hz; exact h.1, fun ρ1 => ihb ρ1 ha.2 h.2⟩))
+      · have := key (Or.inr (Or.inr ⟨by intro z hz; subst hz; exact h.1, fun ρ1 => ihb ρ1 A h.2⟩))
         simpa [hxy, hyx] using this
   case streamMap y e b ihe ihb =>
-    intro ρ ha hs
-    simp only [aggFree, Bool.and_eq_true] at ha
+    intro ρ A hs
     simp only [substOk, Bool.and_eq_true, Bool.or_eq_true, decide_eq_true_eq] at hs
     simp only [subst, eval]
-    rw [ihe ρ ha.1 hs.1.1]
+    rw [ihe ρ A hs.1]
     have hb : ∀ w, eval ((y, w) :: (x, eval ρ A v) :: ρ) A b = eval ((y, w) :: ρ) A (if y = x then b else subst x v b) := by
       intro w
-      have key := eval_under_binders A x v b [(y, w)] ρ hav ha.2
+      have key := eval_under_binders A x v b [(y, w)] ρ
       simp only [keys, List.map_cons, List.map_nil, List.mem_singleton, List.cons_append, List.nil_append] at key
       by_cases hyx : y = x
       · subst hyx
@@ -323,18 +294,17 @@ theorem eval_subst (A : List Env) (x : Name) (v : IR) (hav : aggFree v = true) (
         · exact absurd h hyx
         · have := key (Or.inr (Or.inl h))
           simpa [hxy, hyx] using this
-        · have := key (Or.inr (Or.inr ⟨by intro z hz; subst hz; exact h.1, fun ρ1 => ihb ρ1 ha.2 h.2⟩))
+        · have := key (Or.inr (Or.inr ⟨by intro z hz; subst hz; exact h.1, fun ρ1 => ihb ρ1 A h.2⟩))
           simpa [hxy, hyx] using this
     simp only [hb]
   case streamFilter y e b ihe ihb =>
-    intro ρ ha hs
-    simp only [aggFree, Bool.and_eq_true] at ha
+    intro ρ A hs
     simp only [substOk, Bool.and_eq_true, Bool.or_eq_true, decide_eq_true_eq] at hs
     simp only [subst, eval]
-    rw [ihe ρ ha.1 hs.1.1]
+    rw [ihe ρ A hs.1]
     have hb : ∀ w, eval ((y, w) :: (x, eval ρ A v) :: ρ) A b = eval ((y, w) :: ρ) A (if y = x then b else subst x v b) := by
       intro w
-      have key := eval_under_binders A x v b [(y, w)] ρ hav ha.2
+      have key := eval_under_binders A x v b [(y, w)] ρ
       simp only [keys, List.map_cons, List.map_nil, List.mem_singleton, List.cons_append, List.nil_append] at key
       by_cases hyx : y = x
       · subst hyx
@@ -345,19 +315,18 @@ theorem eval_subst (A : List Env) (x : Name) (v : IR) (hav : aggFree v = true) (
         · exact absurd h hyx
         · have := key (Or.inr (Or.inl h))
           simpa [hxy, hyx] using this
-        · have := key (Or.inr (Or.inr ⟨by intro z hz; subst hz; exact h.1, fun ρ1 => ihb ρ1 ha.2 h.2⟩))
+        · have := key (Or.inr (Or.inr ⟨by intro z hz; subst hz; exact h.1, fun ρ1 => ihb ρ1 A h.2⟩))
           simpa [hxy, hyx] using this
     simp only [hb]
   case streamFold acc w a z b iha ihz ihb =>
-    intro ρ ha hs
-    simp only [aggFree, Bool.and_eq_true] at ha
+    intro ρ A hs
     simp only [substOk, Bool.and_eq_true, Bool.or_eq_true, decide_eq_true_eq] at hs
     simp only [subst, eval]
-    rw [iha ρ ha.1.1 hs.1.1.1, ihz ρ ha.1.2 hs.1.1.2]
+    rw [iha ρ A hs.1.1, ihz ρ A hs.1.2]
     have hb : ∀ s u, eval ((w, u) :: (acc, s) :: (x, eval ρ A v) :: ρ) A b
         = eval ((w, u) :: (acc, s) :: ρ) A (if acc = x ∨ w = x then b else subst x v b) := by
       intro s u
-      have key := eval_under_binders A x v b [(w, u), (acc, s)] ρ hav ha.2
+      have key := eval_under_binders A x v b [(w, u), (acc, s)] ρ
       simp only [keys, List.map_cons, List.map_nil, List.mem_cons, List.not_mem_nil, or_false, List.cons_append,
         List.nil_append] at key
       by_cases hyx : acc = x ∨ w = x
@@ -375,19 +344,18 @@ theorem eval_subst (A : List Env) (x : Name) (v : IR) (hav : aggFree v = true) (
         · have := key (Or.inr (Or.inr ⟨by
             intro y hy; rcases hy with hy | hy
             · subst hy; exact h.1.2
-            · subst hy; exact h.1.1, fun ρ1 => ihb ρ1 ha.2 h.2⟩))
+            · subst hy; exact h.1.1, fun ρ1 => ihb ρ1 A h.2⟩))
           simpa [hk, hyx] using this
     simp only [hb]
   case streamScan acc w a z b iha ihz ihb =>
-    intro ρ ha hs
-    simp only [aggFree, Bool.and_eq_true] at ha
+    intro ρ A hs
     simp only [substOk, Bool.and_eq_true, Bool.or_eq_true, decide_eq_true_eq] at hs
     simp only [subst, eval]
-    rw [iha ρ ha.1.1 hs.1.1.1, ihz ρ ha.1.2 hs.1.1.2]
+    rw [iha ρ A hs.1.1, ihz ρ A hs.1.2]
     have hb : ∀ s u, eval ((w, u) :: (acc, s) :: (x, eval ρ A v) :: ρ) A b
         = eval ((w, u) :: (acc, s) :: ρ) A (if acc = x ∨ w = x then b else subst x v b) := by
       intro s u
-      have key := eval_under_binders A x v b [(w, u), (acc, s)] ρ hav ha.2
+      have key := eval_under_binders A x v b [(w, u), (acc, s)] ρ
       simp only [keys, List.map_cons, List.map_nil, List.mem_cons, List.not_mem_nil, or_false, List.cons_append,
         List.nil_append] at key
       by_cases hyx : acc = x ∨ w = x
@@ -405,34 +373,133 @@ theorem eval_subst (A : List Env) (x : Name) (v : IR) (hav : aggFree v = true) (
         · have := key (Or.inr (Or.inr ⟨by
             intro y hy; rcases hy with hy | hy
             · subst hy; exact h.1.2
-            · subst hy; exact h.1.1, fun ρ1 => ihb ρ1 ha.2 h.2⟩))
+            · subst hy; exact h.1.1, fun ρ1 => ihb ρ1 A h.2⟩))
           simpa [hk, hyx] using this
     simp only [hb]
 
+/-! ## substitution in the aggregation scope -/
+
+/-- **Substitution lemma, aggregation scope**: extending every element environment by `x ↦ v` (what `AggLet x v` does) and
+evaluating `t` is evaluating `t` with `v` substituted for `x` in its aggregation-scope children. -/
+theorem eval_substA (x : Name) (v : IR) (t : IR) :
+    ∀ ρ A, substAOk x (fv v) (fva v) (usesAgg v) t = true →
+      eval ρ (A.map fun σ => (x, eval σ [] v) :: σ) t = eval ρ A (substA x v t) := by
+  induction t
+  case ref | i32 | i64 | f32 | f64 | str | bool | na | anil | snil | tnil => intros; simp [substA, eval]
+  case cast | ascribe | isNA | un | arrayLen | toArray | toStream | getField | getTupleElement | toSet | toDict =>
+    rename_i ih
+    intro ρ A hs
+    simp only [substA, eval]
+    rw [ih ρ A (by simpa [substAOk] using hs)]
+  case bin | cmp | acons | arrayRef | scons | insertField | tcons | dictGet =>
+    rename_i iha ihb
+    intro ρ A hs
+    simp only [substAOk, Bool.and_eq_true] at hs
+    simp only [substA, eval]
+    have e1 := iha ρ A hs.1
+    have e2 := ihb ρ A hs.2
+    simp only [e1, e2]
+  case ite iha ihb ihc =>
+    intro ρ A hs
+    simp only [substAOk, Bool.and_eq_true] at hs
+    simp only [substA, eval]
+    rw [iha ρ A hs.1.1, ihb ρ A hs.1.2, ihc ρ A hs.2]
+  case let_ y e b ihe ihb =>
+    intro ρ A hs
+    simp only [substAOk, Bool.and_eq_true] at hs
+    simp only [substA, eval]
+    rw [ihe ρ A hs.1, ihb _ A hs.2]
+  case streamMap y e b ihe ihb =>
+    intro ρ A hs
+    simp only [substAOk, Bool.and_eq_true] at hs
+    simp only [substA, eval]
+    rw [ihe ρ A hs.1]
+    have hb := fun w => ihb ((y, w) :: ρ) A hs.2
+    simp only [hb]
+  case streamFilter y e b ihe ihb =>
+    intro ρ A hs
+    simp only [substAOk, Bool.and_eq_true] at hs
+    simp only [substA, eval]
+    rw [ihe ρ A hs.1]
+    have hb := fun w => ihb ((y, w) :: ρ) A hs.2
+    simp only [hb]
+  case streamFold acc w a z b iha ihz ihb =>
+    intro ρ A hs
+    simp only [substAOk, Bool.and_eq_true] at hs
+    simp only [substA, eval]
+    rw [iha ρ A hs.1.1, ihz ρ A hs.1.2]
+    have hb := fun s u => ihb ((w, u) :: (acc, s) :: ρ) A hs.2
+    simp only [hb]
+  case streamScan acc w a z b iha ihz ihb =>
+    intro ρ A hs
+    simp only [substAOk, Bool.and_eq_true] at hs
+    simp only [substA, eval]
+    rw [iha ρ A hs.1.1, ihz ρ A hs.1.2]
+    have hb := fun s u => ihb ((w, u) :: (acc, s) :: ρ) A hs.2
+    simp only [hb]
+  case streamAgg y a q iha _ =>
+    intro ρ A hs
+    simp only [substAOk] at hs
+    simp only [substA, eval]
+    rw [iha ρ A hs]
+  case agg op a _ =>
+    intro ρ A hs
+    simp only [substAOk] at hs
+    have : (A.map fun σ => (x, eval σ [] v) :: σ).map (fun σ => eval σ [] a) = A.map (fun σ => eval σ [] (subst x v a)) := by
+      rw [List.map_map]
+      apply List.map_congr_left
+      intro σ _
+      exact eval_subst x v a σ [] hs
+    cases op <;> simp only [substA, eval, this]
+  case aggFilter c b _ ihb =>
+    intro ρ A hs
+    simp only [substAOk, Bool.and_eq_true] at hs
+    simp only [substA, eval]
+    rw [List.filter_map]
+    have hp : ((fun σ => isTrue (eval σ [] c)) ∘ fun σ => (x, eval σ [] v) :: σ) = fun σ => isTrue (eval σ [] (subst x v c)) := by
+      funext σ
+      simp only [Function.comp]
+      rw [eval_subst x v c σ [] hs.1]
+    rw [hp]
+    exact ihb ρ _ hs.2
+  case aggLet y e b _ ihb =>
+    intro ρ A hs
+    simp only [substAOk, Bool.and_eq_true, Bool.or_eq_true, decide_eq_true_eq] at hs
+    obtain ⟨hse, hyb⟩ := hs
+    simp only [substA, eval]
+    rw [List.map_map]
+    have he : ∀ σ, eval ((x, eval σ [] v) :: σ) [] e = eval σ [] (subst x v e) :=
+      fun σ => eval_subst x v e σ [] hse
+    by_cases hyx : y = x
+    · rw [if_pos hyx]
+      apply eval_agree b ρ ρ _ _ (fun _ _ => rfl)
+      apply Rel2.of_map
+      intro σ z _
+      simp only [Function.comp, he, lookup_cons, hyx]
+      split <;> rfl
+    · rw [if_neg hyx]
+      rcases hyb with hyb | hyb
+      · exact absurd hyb hyx
+      · rw [← ihb ρ _ hyb.2, List.map_map]
+        apply eval_agree b ρ ρ _ _ (fun _ _ => rfl)
+        apply Rel2.of_map
+        intro σ z _
+        simp only [Function.comp, he]
+        have hv : eval ((y, eval σ [] (subst x v e)) :: σ) [] v = eval σ [] v := by
+          apply eval_agree_env
+          intro u hu
+          have : y ≠ u := fun e => hyb.1 (e ▸ hu)
+          simp [lookup_cons, this]
+        rw [hv]
+        simp only [lookup_cons]
+        have hxy : ¬ x = y := fun e => hyx e.symm
+        by_cases h1 : y = z
+        · subst h1; simp [hxy]
+        · simp [h1]
+
 /-! ## inlining the `__cse` bindings -/
 
-theorem eval_cseLetFree_inline (t : IR) : cseLetFree t = true → inlineCse t = t := by
-  induction t
-  case let_ x v b ihv ihb =>
-    intro h
-    simp only [cseLetFree, Bool.and_eq_true, Bool.not_eq_true'] at h
-    simp [inlineCse, h.1.1, ihv h.1.2, ihb h.2]
-  case ref | i32 | i64 | f32 | f64 | str | bool | na | anil | snil | tnil => intros; simp [inlineCse]
-  case aggLet | aggFilter | agg => intros; simp [inlineCse]
-  case streamAgg x a q iha _ =>
-    intro h; simp only [cseLetFree, Bool.and_eq_true] at h; simp [inlineCse, iha h.1]
-  case cast | ascribe | isNA | un | arrayLen | toArray | toStream | getField | getTupleElement | toSet | toDict =>
-    rename_i ih; intro h; simp only [cseLetFree] at h; simp [inlineCse, ih h]
-  case bin | cmp | acons | arrayRef | scons | insertField | tcons | dictGet | streamMap | streamFilter =>
-    rename_i iha ihb; intro h; simp only [cseLetFree, Bool.and_eq_true] at h; simp [inlineCse, iha h.1, ihb h.2]
-  case ite iha ihb ihc =>
-    intro h; simp only [cseLetFree, Bool.and_eq_true] at h; simp [inlineCse, iha h.1.1, ihb h.1.2, ihc h.2]
-  case streamFold iha ihb ihc =>
-    intro h; simp only [cseLetFree, Bool.and_eq_true] at h; simp [inlineCse, iha h.1.1, ihb h.1.2, ihc h.2]
-  case streamScan iha ihb ihc =>
-    intro h; simp only [cseLetFree, Bool.and_eq_true] at h; simp [inlineCse, iha h.1.1, ihb h.1.2, ihc h.2]
-
-/-- inlining the lifted bindings does not change the value, in any environment -/
+/-- inlining the lifted bindings does not change the value, in any value scope and any aggregation scope -/
 theorem eval_inlineCse (t : IR) : inlineOk t = true → ∀ ρ A, eval ρ A (inlineCse t) = eval ρ A t := by
   induction t
   case let_ x v b ihv ihb =>
@@ -443,16 +510,38 @@ theorem eval_inlineCse (t : IR) : inlineOk t = true → ∀ ρ A, eval ρ A (inl
     · rcases hc with hc | hc
       · rw [hx] at hc; exact absurd hc (by simp)
       · simp only [inlineCse, hx, if_true]
-        rw [← eval_subst A x (inlineCse v) hc.1.1 (inlineCse b) ρ hc.1.2 hc.2]
+        rw [← eval_subst x (inlineCse v) (inlineCse b) ρ A hc]
         simp only [eval]
         rw [ihv hv ρ A, ihb hb]
     · have hx' : isCse x = false := by simpa using hx
       simp only [inlineCse, hx', Bool.false_eq_true, if_false, eval]
       rw [ihv hv ρ A, ihb hb]
+  case aggLet x v b ihv ihb =>
+    intro h ρ A
+    simp only [inlineOk, Bool.and_eq_true, Bool.or_eq_true, Bool.not_eq_true'] at h
+    obtain ⟨⟨hv, hb⟩, hc⟩ := h
+    have hvs : ∀ σ, eval σ [] (inlineCse v) = eval σ [] v := fun σ => ihv hv σ []
+    by_cases hx : isCse x = true
+    · rcases hc with hc | hc
+      · rw [hx] at hc; exact absurd hc (by simp)
+      · simp only [inlineCse, hx, if_true]
+        rw [← eval_substA x (inlineCse v) (inlineCse b) ρ A hc]
+        simp only [eval, hvs]
+        rw [ihb hb]
+    · have hx' : isCse x = false := by simpa using hx
+      simp only [inlineCse, hx', Bool.false_eq_true, if_false, eval, hvs]
+      rw [ihb hb]
   case ref | i32 | i64 | f32 | f64 | str | bool | na | anil | snil | tnil => intros; simp [inlineCse]
-  case aggLet | aggFilter | agg => intros; simp [inlineCse]
-  case streamAgg x a q iha _ =>
-    intro h ρ A; simp only [inlineOk, Bool.and_eq_true] at h; simp [inlineCse, eval, iha h.1]
+  case agg op a iha =>
+    intro h ρ A; simp only [inlineOk] at h
+    have := fun σ => iha h σ []
+    cases op <;> simp [inlineCse, eval, this]
+  case aggFilter c b ihc ihb =>
+    intro h ρ A; simp only [inlineOk, Bool.and_eq_true] at h
+    have := fun σ => ihc h.1 σ []
+    simp [inlineCse, eval, this, ihb h.2]
+  case streamAgg x a q iha ihq =>
+    intro h ρ A; simp only [inlineOk, Bool.and_eq_true] at h; simp [inlineCse, eval, iha h.1, ihq h.2]
   case cast | ascribe | isNA | un | arrayLen | toArray | toStream | getField | getTupleElement | toSet | toDict =>
     rename_i ih; intro h ρ A; simp only [inlineOk] at h; simp [inlineCse, eval, ih h]
   case bin | cmp | acons | arrayRef | scons | insertField | tcons | dictGet | streamMap | streamFilter =>
@@ -463,6 +552,7 @@ theorem eval_inlineCse (t : IR) : inlineOk t = true → ∀ ρ A, eval ρ A (inl
     intro h ρ A; simp only [inlineOk, Bool.and_eq_true] at h; simp [inlineCse, eval, iha h.1.1, ihb h.1.2, ihc h.2]
   case streamScan iha ihb ihc =>
     intro h ρ A; simp only [inlineOk, Bool.and_eq_true] at h; simp [inlineCse, eval, iha h.1.1, ihb h.1.2, ihc h.2]
+
 
 /-! ## the scope checker decides `WellScoped` -/
 
@@ -541,96 +631,85 @@ theorem scopeOk_sound (t : IR) : ∀ Γ Δ, scopeOk Γ Δ t = true → WellScope
 theorem scopeOk_complete {Γ Δ t} (h : WellScoped Γ Δ t) : scopeOk Γ Δ t = true := by
   induction h <;> simp_all [scopeOk]
 
-/-- a well-scoped aggregation-free expression has all its free variables in scope -/
-theorem fv_subset_of_wellScoped {Γ Δ t} (h : WellScoped Γ Δ t) : aggFree t = true → ∀ y ∈ fv t, y ∈ Γ := by
-  induction h <;> intro ha y hy <;>
-    simp only [aggFree, Bool.and_eq_true, Bool.false_eq_true] at ha <;>
-    simp only [fv, List.mem_append, mem_remove, List.mem_singleton, List.not_mem_nil] at hy
-  case ref hx => exact hy ▸ hx
+/-- a well-scoped expression has all its free variables in scope: the value-scope ones in `Γ`, the aggregation-scope ones in the
+aggregation scope (which then exists) -/
+theorem fv_fva_of_wellScoped {Γ Δ t} (h : WellScoped Γ Δ t) :
+    (∀ y ∈ fv t, y ∈ Γ) ∧ (∀ y ∈ fva t, ∃ D, Δ = some D ∧ y ∈ D) := by
+  induction h
+  case i32 | i64 | f32 | f64 | str | bool | na | anil | snil | tnil => simp [fv, fva]
+  case ref hx =>
+    simp only [fv, fva, List.mem_singleton, List.not_mem_nil]
+    exact ⟨fun y hy => hy ▸ hx, fun y hy => hy.elim⟩
   case cast ih | ascribe ih | isNA ih | un ih | arrayLen ih | toArray ih | toStream ih | getField ih | getTupleElement ih | toSet ih
-    | toDict ih => exact ih ha y hy
+    | toDict ih => simpa [fv, fva] using ih
   case bin iha ihb | cmp iha ihb | acons iha ihb | arrayRef iha ihb | scons iha ihb | insertField iha ihb | tcons iha ihb
     | dictGet iha ihb =>
-    rcases hy with hy | hy
-    · exact iha ha.1 y hy
-    · exact ihb ha.2 y hy
+    simp only [fv, fva, List.mem_append]
+    exact ⟨fun y hy => hy.elim (iha.1 y) (ihb.1 y), fun y hy => hy.elim (iha.2 y) (ihb.2 y)⟩
   case ite iha ihb ihc =>
-    rcases hy with (hy | hy) | hy
-    · exact iha ha.1.1 y hy
-    · exact ihb ha.1.2 y hy
-    · exact ihc ha.2 y hy
+    simp only [fv, fva, List.mem_append]
+    exact ⟨fun y hy => hy.elim (fun h => h.elim (iha.1 y) (ihb.1 y)) (ihc.1 y),
+      fun y hy => hy.elim (fun h => h.elim (iha.2 y) (ihb.2 y)) (ihc.2 y)⟩
   case let_ iha ihb | streamMap iha ihb | streamFilter iha ihb =>
+    simp only [fv, fva, List.mem_append, mem_remove]
+    refine ⟨fun y hy => ?_, fun y hy => hy.elim (iha.2 y) (ihb.2 y)⟩
     rcases hy with hy | hy
-    · exact iha ha.1 y hy
-    · have := ihb ha.2 y hy.1
+    · exact iha.1 y hy
+    · have := ihb.1 y hy.1
       simp only [List.mem_cons] at this
-      rcases this with h | h
-      · exact absurd h hy.2
-      · exact h
-  case streamFold iha ihz ihb =>
+      exact this.resolve_left hy.2
+  case streamFold iha ihz ihb | streamScan iha ihz ihb =>
+    simp only [fv, fva, List.mem_append, mem_remove]
+    refine ⟨fun y hy => ?_, fun y hy => hy.elim (fun h => h.elim (iha.2 y) (ihz.2 y)) (ihb.2 y)⟩
     rcases hy with (hy | hy) | hy
-    · exact iha ha.1.1 y hy
-    · exact ihz ha.1.2 y hy
-    · have := ihb ha.2 y hy.1.1
+    · exact iha.1 y hy
+    · exact ihz.1 y hy
+    · have := ihb.1 y hy.1.1
       simp only [List.mem_cons] at this
-      rcases this with h | h | h
-      · exact absurd h hy.1.2
-      · exact absurd h hy.2
-      · exact h
-  case streamScan iha ihz ihb =>
+      exact (this.resolve_left hy.1.2).resolve_left hy.2
+  case streamAgg iha ihq =>
+    simp only [fv, fva, List.mem_append, mem_remove]
+    refine ⟨fun y hy => ?_, iha.2⟩
     rcases hy with (hy | hy) | hy
-    · exact iha ha.1.1 y hy
-    · exact ihz ha.1.2 y hy
-    · have := ihb ha.2 y hy.1.1
-      simp only [List.mem_cons] at this
-      rcases this with h | h | h
-      · exact absurd h hy.1.2
-      · exact absurd h hy.2
-      · exact h
+    · exact iha.1 y hy
+    · exact ihq.1 y hy
+    · obtain ⟨D, hD, hyD⟩ := ihq.2 y hy.1
+      cases hD
+      simp only [List.mem_cons] at hyD
+      exact hyD.resolve_left hy.2
+  case aggLet ihv ihb =>
+    rename_i D _ x _ _ _ _
+    simp only [fv, fva, List.mem_append, mem_remove]
+    refine ⟨ihb.1, fun y hy => ?_⟩
+    rcases hy with hy | hy
+    · exact ⟨_, rfl, ihv.1 y hy⟩
+    · obtain ⟨D', hD, hyD⟩ := ihb.2 y hy.1
+      cases hD
+      simp only [List.mem_cons] at hyD
+      exact ⟨_, rfl, hyD.resolve_left hy.2⟩
+  case aggFilter ihc ihb =>
+    simp only [fv, fva, List.mem_append]
+    refine ⟨ihb.1, fun y hy => ?_⟩
+    rcases hy with hy | hy
+    · exact ⟨_, rfl, ihc.1 y hy⟩
+    · exact ihb.2 y hy
+  case agg iha =>
+    simp only [fv, fva, List.not_mem_nil]
+    exact ⟨fun y hy => hy.elim, fun y hy => ⟨_, rfl, iha.1 y hy⟩⟩
+
+theorem fv_subset_of_wellScoped {Γ Δ t} (h : WellScoped Γ Δ t) : ∀ y ∈ fv t, y ∈ Γ := (fv_fva_of_wellScoped h).1
+
+theorem fva_subset_of_wellScoped {Γ D t} (h : WellScoped Γ (some D) t) : ∀ y ∈ fva t, y ∈ D := by
+  intro y hy
+  obtain ⟨D', hD, hyD⟩ := (fv_fva_of_wellScoped h).2 y hy
+  cases hD
+  exact hyD
 
 end HailVerif.ExprIR
 
 namespace HailVerif.ExprIR
 
 /-! ## one CSE step at the specification level: `let x = v in t[x/v] ≡ t` -/
-
-theorem fv_subset_names (t : IR) : ∀ y ∈ fv t, y ∈ names t := by
-  induction t <;> intro y hy <;>
-    simp only [fv, List.mem_append, mem_remove, List.mem_singleton, List.not_mem_nil] at hy <;>
-    simp only [names, List.mem_append, List.mem_cons]
-  case ref => exact Or.inl hy
-  case cast ih | ascribe ih | isNA ih | un ih | arrayLen ih | toArray ih | toStream ih | getField ih | getTupleElement ih
-    | toSet ih | toDict ih => exact ih y hy
-  case bin iha ihb | cmp iha ihb | acons iha ihb | arrayRef iha ihb | scons iha ihb | insertField iha ihb | tcons iha ihb
-    | dictGet iha ihb =>
-    rcases hy with hy | hy
-    · exact Or.inl (iha y hy)
-    · exact Or.inr (ihb y hy)
-  case ite iha ihb ihc =>
-    rcases hy with (hy | hy) | hy
-    · exact Or.inl (Or.inl (iha y hy))
-    · exact Or.inl (Or.inr (ihb y hy))
-    · exact Or.inr (ihc y hy)
-  case let_ iha ihb | streamMap iha ihb | streamFilter iha ihb =>
-    rcases hy with hy | hy
-    · exact Or.inr (Or.inl (iha y hy))
-    · exact Or.inr (Or.inr (ihb y hy.1))
-  case streamFold iha ihz ihb =>
-    rcases hy with (hy | hy) | hy
-    · exact Or.inr (Or.inr (Or.inl (Or.inl (iha y hy))))
-    · exact Or.inr (Or.inr (Or.inl (Or.inr (ihz y hy))))
-    · exact Or.inr (Or.inr (Or.inr (ihb y hy.1.1)))
-  case streamScan iha ihz ihb =>
-    rcases hy with (hy | hy) | hy
-    · exact Or.inr (Or.inr (Or.inl (Or.inl (iha y hy))))
-    · exact Or.inr (Or.inr (Or.inl (Or.inr (ihz y hy))))
-    · exact Or.inr (Or.inr (Or.inr (ihb y hy.1.1)))
-  case streamAgg iha ihq =>
-    rcases hy with hy | hy
-    · exact Or.inr (Or.inl (iha y hy))
-    · exact Or.inr (Or.inr (ihq y hy))
-  case aggLet _ ihb => exact Or.inr (Or.inr (ihb y hy))
-  case aggFilter _ ihb => exact Or.inr (ihb y hy)
 
 theorem aggFree_abstractAt (x : Name) (v : IR) (F : List Name) (t : IR) :
     aggFree t = true → aggFree (abstractAt x v F t) = true := by
@@ -671,7 +750,7 @@ theorem aggFree_abstractAt (x : Name) (v : IR) (F : List Name) (t : IR) :
 theorem subst_abstractAt (x : Name) (v : IR) (F : List Name) (t : IR) :
     x ∉ names t → subst x v (abstractAt x v F t) = t := by
   induction t
-  case streamAgg | aggLet | aggFilter | agg => intro _; simp [abstractAt, subst]
+  case streamAgg | aggLet | aggFilter | agg => intro h; exact subst_of_not_names x v _ h
   case ref y =>
     intro h; simp only [names, List.mem_singleton] at h
     simp only [abstractAt]; split
@@ -733,8 +812,8 @@ theorem subst_abstractAt (x : Name) (v : IR) (F : List Name) (t : IR) :
       · rw [subst_of_not_free x v b (fun hm => hxb (fv_subset_names b x hm))]
       · rw [ihb hxb]
 
-theorem substOk_abstractAt (x : Name) (v : IR) (F : List Name) (t : IR) :
-    aggFree t = true → x ∉ names t → substOk x F (abstractAt x v F t) = true := by
+theorem substOk_abstractAt (x : Name) (v : IR) (F FA : List Name) (dep : Bool) (t : IR) :
+    aggFree t = true → x ∉ names t → substOk x F FA dep (abstractAt x v F t) = true := by
   induction t
   case streamAgg | aggLet | aggFilter | agg => intro h; simp [aggFree] at h
   case ref | i32 | i64 | f32 | f64 | str | bool | na | anil | snil | tnil =>
@@ -760,9 +839,9 @@ theorem substOk_abstractAt (x : Name) (v : IR) (F : List Name) (t : IR) :
     · simp only [substOk, iha ha.1 hxa, Bool.true_and, Bool.and_eq_true, Bool.or_eq_true, decide_eq_true_eq]
       split
       · rename_i hyF
-        exact ⟨ha.2, Or.inl (Or.inr (fun hm => hxb (fv_subset_names b x hm)))⟩
+        exact Or.inl (Or.inr (fun hm => hxb (fv_subset_names b x hm)))
       · rename_i hyF
-        exact ⟨aggFree_abstractAt x v F b ha.2, Or.inr ⟨hyF, ihb ha.2 hxb⟩⟩
+        exact Or.inr ⟨hyF, ihb ha.2 hxb⟩
   case streamFold acc w a z b iha ihz ihb =>
     intro ha hx
     simp only [aggFree, Bool.and_eq_true] at ha
@@ -773,10 +852,10 @@ theorem substOk_abstractAt (x : Name) (v : IR) (F : List Name) (t : IR) :
     · simp only [substOk, iha ha.1.1 hxa, ihz ha.1.2 hxz, Bool.true_and, Bool.and_eq_true, Bool.or_eq_true,
         decide_eq_true_eq]
       split
-      · exact ⟨ha.2, Or.inl (Or.inr (fun hm => hxb (fv_subset_names b x hm)))⟩
+      · exact Or.inl (Or.inr (fun hm => hxb (fv_subset_names b x hm)))
       · rename_i hF
         simp only [not_or] at hF
-        exact ⟨aggFree_abstractAt x v F b ha.2, Or.inr ⟨⟨hF.1, hF.2⟩, ihb ha.2 hxb⟩⟩
+        exact Or.inr ⟨⟨hF.1, hF.2⟩, ihb ha.2 hxb⟩
   case streamScan acc w a z b iha ihz ihb =>
     intro ha hx
     simp only [aggFree, Bool.and_eq_true] at ha
@@ -787,9 +866,9 @@ theorem substOk_abstractAt (x : Name) (v : IR) (F : List Name) (t : IR) :
     · simp only [substOk, iha ha.1.1 hxa, ihz ha.1.2 hxz, Bool.true_and, Bool.and_eq_true, Bool.or_eq_true,
         decide_eq_true_eq]
       split
-      · exact ⟨ha.2, Or.inl (Or.inr (fun hm => hxb (fv_subset_names b x hm)))⟩
+      · exact Or.inl (Or.inr (fun hm => hxb (fv_subset_names b x hm)))
       · rename_i hF
         simp only [not_or] at hF
-        exact ⟨aggFree_abstractAt x v F b ha.2, Or.inr ⟨⟨hF.1, hF.2⟩, ihb ha.2 hxb⟩⟩
+        exact Or.inr ⟨⟨hF.1, hF.2⟩, ihb ha.2 hxb⟩
 
 end HailVerif.ExprIR
